@@ -435,6 +435,22 @@ impl OutputList {
     }
 
     pub fn write_to(&self, writer: &mut dyn Write) -> Result<()> {
+        self.write_events(writer, true)
+    }
+
+    /// Write events without any whitespace tidying; used to pass 'real' SVG through as-is.
+    pub fn write_verbatim(&self, writer: &mut dyn Write) -> Result<()> {
+        self.write_events(writer, false)
+    }
+
+    fn write_events(&self, writer: &mut dyn Write, tidy: bool) -> Result<()> {
+        let tidy_text = |s: &str| {
+            if tidy {
+                Self::blank_line_remover(s)
+            } else {
+                s.to_owned()
+            }
+        };
         let mut writer = Writer::new(writer);
 
         // Separate buffer for coalescing text events
@@ -446,7 +462,7 @@ impl OutputList {
                 text_buf.push_str(content);
                 continue;
             } else if !text_buf.is_empty() {
-                let content = Self::blank_line_remover(&text_buf);
+                let content = tidy_text(&text_buf);
                 let text_event = Event::Text(BytesText::new(&content).into_owned());
                 text_buf.clear();
                 writer
@@ -457,7 +473,7 @@ impl OutputList {
         }
         // re-add any trailing text
         if !text_buf.is_empty() {
-            let content = Self::blank_line_remover(&text_buf);
+            let content = tidy_text(&text_buf);
             let text_event = Event::Text(BytesText::new(&content).into_owned());
             writer
                 .write_event(text_event)
